@@ -182,6 +182,20 @@ fn ladder_cfg(rng: &mut Rng, i: u64, thorough: bool) -> BuildCfg {
             2..=5 => (Some(0o100000 | [0o644, 0o755, 0o600][rng.usize(3)]), None, size),
             _ => (None, None, size),
         };
+        // sibling directories whose names are prefixes of each other (byte order vs component order)
+        let dest = if k == 1 && i % 3 == 0 {
+            let parent = ["/etc", "/usr/lib", ""][rng.usize(3)];
+            let stem = ["foo", "x", "lib"][rng.usize(3)];
+            let sfx = [".d", "-1", "+", " ", "", ".conf.d"][rng.usize(6)];
+            used.insert(format!("{parent}/{stem}{sfx}/f{k}"));
+            format!("{parent}/{stem}{sfx}/f{k}")
+        } else if k == 2 && i % 3 == 0 {
+            let parent = ["/etc", "/usr/lib", ""][rng.usize(3)];
+            let stem = ["foo", "x", "lib"][rng.usize(3)];
+            format!("{parent}/{stem}/g{k}")
+        } else {
+            dest
+        };
         cfg.files.push(FileCfg {
             dest,
             content_kind: if rng.bool() { "noise".into() } else { "text".into() },
